@@ -4,6 +4,7 @@ import Hive.Proofs.OMapConc
 import Hive.Proofs.OMapLin
 import Hive.Proofs.OMapIter
 import Hive.Proofs.OMapDict
+import Hive.Proofs.OMapStep
 import Hive.Model.OMapLine
 import Hive.Gen.C11_Skel
 /-!
@@ -499,6 +500,40 @@ example :
     let r := PMap.weakWalk false 100 (PMap.run h) (PMap.run h).tail script
     r.2.1.map (·.2.1) = [4, 3, 2, 1, 0] ∧ r.2.2 = true ∧
     (r.2.1.map (·.2.1)).filter (PMap.liveThrough (PMap.run h) script) = [4, 1, 0] := by decide
+
+/-- **One step of an iteration that is interleaved with writers.**  After any history, let `k` be a live key with
+element `i` (the dictionary — in chain order — splits as `d1 ++ (k, i) :: d2`).  When `ForEach` stands on that entry and
+reads its `next` pointer under the lock — after the consumer returned, whatever the consumer or other goroutines did
+before that moment is part of the history — it moves on to the entry of the key that follows `k` in insertion order at
+that moment, and ends if `k` is the last one; `ForEachReverse` moves to the key before `k`, and ends if `k` is the first.
+So a key deleted while its predecessor was being visited is not visited, a key appended while the last entry is being
+visited is.  (The Go oracle `iteration-step` checks exactly this on the real code.) -/
+theorem C11_iteration_step (h : List MOp) (d1 d2 : List (Nat × Nat)) (k i : Nat)
+    (hsplit : (PMap.run h).dict = d1 ++ (k, i) :: d2) :
+    AMap.keys (AMap.run h) = AMap.keys d1 ++ k :: AMap.keys d2 ∧
+    ((PMap.run h).stepCursor true i).map (PMap.keyOf (PMap.run h).heap) = (AMap.keys d2).head? ∧
+    ((PMap.run h).stepCursor false i).map (PMap.keyOf (PMap.run h).heap) = (AMap.keys d1).getLast? :=
+  PMap.iteration_step_run h d1 d2 k i hsplit
+
+/-- the consumer of key 0 deleted key 1 (the history ends with that deletion): from 0 the iteration goes on to 2 -/
+example : (PMap.run [.set 0 0, .set 1 1, .set 2 2, .del 1]).dict = [] ++ (0, 0) :: [(2, 2)] ∧
+    ((PMap.run [.set 0 0, .set 1 1, .set 2 2, .del 1]).stepCursor true 0).map
+      (PMap.keyOf (PMap.run [.set 0 0, .set 1 1, .set 2 2, .del 1]).heap) = some 2 := by decide
+
+/-- **`s.DeleteAll(s)` — the argument is the receiver itself.**  The consumer of every entry deletes that very entry, so
+the iteration always stands on an element that has just been unlinked and follows its stale `next` pointer.  On the map
+reached by any history this visits every key exactly once in insertion order, runs to completion and leaves the map
+empty — what the abstract model (`deleteAll` applied to the receiver's own elements, the way the line protocol treats an
+aliased argument) says: nothing is left and every element is reported. -/
+theorem C11_alias_deleteall (h : List MOp) (fuel : Nat) (hf : (AMap.run h).length < fuel) (s : ASet) :
+    (let r := PMap.weakWalk true fuel (PMap.run h) (PMap.run h).head (PMap.delSelfScript (AMap.keys (AMap.run h)))
+     r.2.1.map (·.2.1) = AMap.keys (AMap.run h) ∧ r.2.2 = true ∧ r.1.dict = []) ∧
+    (deleteAll s (elems s)).1 = [] ∧ (∀ x, x ∈ elems (deleteAll s (elems s)).2 ↔ x ∈ elems s) :=
+  ⟨PMap.deleteSelf_run h fuel hf, deleteAll_self s⟩
+
+example : (AMap.run [.set 3 0, .set 1 0, .set 2 0, .del 1]).length < 5 ∧
+    (PMap.weakWalk true 5 (PMap.run [.set 3 0, .set 1 0, .set 2 0, .del 1]) (PMap.run [.set 3 0, .set 1 0, .set 2 0, .del 1]).head
+      (PMap.delSelfScript [3, 2])).2.1.map (·.2.1) = [3, 2] := by decide
 
 /-! ## concurrency: every method returns -/
 open Hive.Conc
